@@ -25,6 +25,15 @@ CLAIMS = {
          "against the zero test of the contraction) is compared exactly with the exception class geometer "
          "raises, for singles and for collections whose dependent_values mask must equal the spec's pattern.",
     design="5/C02", technique="TLC exhaustive lattice enumeration of degenerate strata + replay with exact error/mask comparison"),
+ "C20": dict(
+    text="TLC enumerates all 2x2 (entries -2..2) and 3x3 (entries -1..1) integer matrices, seeded 4x4/5x5 matrices with "
+         "controlled rank defects, all root multisets (simple/double/triple/complex pair/lower degree), all lattice vector "
+         "pairs; it certifies every formula variant the code selects (closed 2x2, Sarrus, minor table with sign pattern, "
+         "epsilon contraction) against the Leibniz determinant and A adj(A) = det(A) I, so the algorithm choice is an unlogged "
+         "variable. Each matrix is replayed through det/adjugate/inv on both sides of the 64-matrix thresholds, in several batch "
+         "shapes and int/float/complex dtype; null_space/orth through rank facts; recorded batches of larger random matrices are "
+         "validated by TLC.",
+    design="5/C20", technique="TLC enumeration + certified exact oracle, replay on both sides of the batch thresholds, TLC trace validation"),
 }
 
 checks = []
